@@ -256,6 +256,7 @@ func compile(patterns []string, mode Mode) (*regexp.Regexp, error) {
 							pat = pat[w:]
 							j := strings.Index(pat, string(r)+"]")
 							if j == -1 {
+								w = 0
 								break Bracket
 							}
 							w = j + 2
